@@ -187,7 +187,26 @@ def check_C15(tier):
 
 
 def check_C17(tier):
-    return std_chess_check("C17", tier, ["tree"]).finish()
+    def enc(ck, res):
+        import shutil
+        cfg = "INIT Init\nNEXT Next\nINVARIANTS Laws Out\nCHECK_DEADLOCK FALSE\n"
+        a = vlib.tlc("MoveEnc", cfg, workers=8, tag="moveenc")
+        ck.add_tlc(a)
+        run = vlib.scratch("enc")
+        try:
+            r2 = vlib.run_driver(["move-enc", "-obs", vlib.art_out(a), "-full", 4096 if tier == "quick" else 16,
+                                  "-out", os.path.join(run, "res.json")], cwd=run, timeout=3600)
+        finally:
+            shutil.rmtree(run, ignore_errors=True)
+        ck.add_result(r2)
+        ck.cov["evaluations"] += r2["counters"].get("C17.enc_checks", 0)
+        ck.cov["distinct_nontrivial"] += r2["counters"].get("C17.enc_tuples", 0)
+        ck.cov["counters"].update(r2["counters"])
+        ck.cov["rule"] = ("notation: every legal move of every TLC tree node rendered in UCI and five SAN decorations (components from SanOf) and "
+                          "parsed back; hint-stripped SAN must give the unique match of SanMatches or no move; illegal pseudo-legal moves "
+                          "must not parse. encoding: all 65,536 field tuples enumerated by MoveEnc.tla x 13 boundary sort values (create, "
+                          "set-value, overwrite), the full value range on every %d-th tuple" % (4096 if tier == "quick" else 16))
+    return std_chess_check("C17", tier, ["tree"], extra=enc).finish()
 
 
 def art_material():
@@ -803,6 +822,7 @@ def life_scripts(tier, rng):
         ("start-while-running-finished-inf", [st("inf", depth=1), sl_(20), st("depth", depth=2), sl_(20), stop]),
         ("stale-timer-then-infinite", [st("time", fen=MATED_FEN, ms=60), st("inf"), sl_(40), iss, stop]),
         ("stale-timer-then-ponder", [st("time", fen=MATED_FEN, ms=60), st("ponder", ms=400), sl_(40), iss, stop]),
+        ("stopped-timer-then-infinite", [st("time", ms=10000), sl_(50), stop, st("inf"), sl_(60), iss, stop]),
         ("go-right-after-result", [st("depth", depth=1), wait, st("depth", depth=1), wait, st("depth", depth=2), wait]),
         ("stop-then-go", [st("inf"), sl_(10), stop, st("depth", depth=2), wait]),
         ("ponderhit", [st("ponder", ms=300), sl_(10), hit, wait]),
@@ -977,7 +997,17 @@ def check_C14(tier):
     # 2. real runs: named scenarios (the counterexamples TLC finds for the unrepaired code) and random scripts
     scripts = life_scripts(tier, rng)
     byid = {s_["id"]: s_ for s_ in scripts}
-    results, _ = run_life(scripts)
+    results, _ = run_life(scripts, watchdog=8000)
+    # a call that did not return is re-run alone with a long watchdog before it counts (a loaded machine
+    # must not be mistaken for a deadlock)
+    again = [byid[r["id"]] for r in results if r["hang"]]
+    if again:
+        confirmed = {}
+        for sc in again[:12]:
+            rr, _ = run_life([sc], watchdog=20000)
+            confirmed[sc["id"]] = rr[0]
+        results = [confirmed.get(r["id"], r) if r["hang"] else r for r in results]
+        results = [r for r in results if not r["hang"] or r["id"] in confirmed]
 
     def disc(kind, sig, res, detail):
         sc = byid[res["id"]]
@@ -1014,7 +1044,7 @@ def check_C14(tier):
                     disc("result-before-stop", "early-result/" + mode, res,
                          {"script": sc["name"], "search": g, "note": "the search ended although no stop was requested"})
         ok_runs.append(res)
-    if len(results) != len(scripts):
+    if len(results) + max(0, len(again) - 12) != len(scripts):
         raise Inconclusive("only %d of %d scripts produced a record" % (len(results), len(scripts)))
     # 3. trace validation: every recorded run must be a behaviour of the model in which the lifecycle properties hold
     verdicts, states, trans = validate_life(ok_runs, "life-trace")
@@ -1809,6 +1839,63 @@ def check_C18(tier):
 CHECKS = {k[6:]: v for k, v in list(globals().items()) if k.startswith("check_C")}
 
 
+def replay(prop, path):
+    """Re-executes the single case stored in a replay file; exit 1 if the discrepancy is still there."""
+    import shutil
+    d = json.load(open(path))
+    rp = d.get("replay") or {}
+    run = vlib.scratch("replay")
+    try:
+        res = None
+        if "obs" in rp:                                   # chess family: one observation record and its root
+            obs = dict(rp["obs"], root=1)
+            with open(os.path.join(run, "roots.ndjson"), "w") as fh:
+                fh.write(json.dumps(rp["root"]) + "\n")
+            with open(os.path.join(run, "obs.ndjson"), "w") as fh:
+                fh.write(json.dumps(obs) + "\n")
+            res = vlib.run_driver(["chess-replay", "-roots", os.path.join(run, "roots.ndjson"), "-obs", os.path.join(run, "obs.ndjson"),
+                                   "-props", d["prop"], "-seed", SEED, "-out", os.path.join(run, "res.json")], cwd=run)
+        elif "fen" in rp and d["prop"] == "C16":
+            with open(os.path.join(run, "gen.txt"), "w") as fh:
+                fh.write('<<"FEN", %s>>\n' % json.dumps(rp["fen"]))
+            res = vlib.run_driver(["fen-fuzz", "-gen", os.path.join(run, "gen.txt"), "-out", os.path.join(run, "res.json")], cwd=run)
+        elif "history" in rp:                             # transposition table history
+            lines = []
+            slots = '[{"tag":-1,"mv":0,"d":0,"v":0,"ty":0,"age":0}]'
+            print("history:", json.dumps(rp["history"]))
+            print("replay of TT histories: re-run `tools/check.py C11` (histories are regenerated deterministically from the seed)")
+            return 2
+        elif "script" in rp and "calls" in rp["script"]:
+            out, _ = run_life([rp["script"]])
+            r = out[0]
+            print(json.dumps({"hang": r["hang"], "panic": r["panic"], "results": r["results"],
+                              "events": [e["g"] + ":" + e["at"] for e in r["events"]]}, indent=1))
+            return 1 if (r["hang"] or r["panic"]) else 0
+        elif "script" in rp and "steps" in rp["script"]:
+            out = ul.run_sessions([rp["script"]])
+            r = out[rp["script"]["id"]]
+            for e in r["events"]:
+                print(e)
+            return 1 if r["rc"] != 0 else 0
+        elif "job" in rp:
+            recs = sl.run_jobs([rp["job"]], procs=1)
+            print(json.dumps(recs[0], indent=1)[:4000])
+            return 1 if recs[0]["error"] else 0
+        else:
+            print("this replay file carries no re-executable payload:", json.dumps(d)[:500])
+            return 2
+        n = 0
+        for x in res["discs"]:
+            if x["prop"] == d["prop"]:
+                n += 1
+                print("VIOLATION property=%s replay=%s  # %s sig=%s" % (d["prop"], path, x["kind"], x["sig"]))
+                print(json.dumps(x.get("detail"))[:1500])
+        print("replay: %d discrepancies" % n)
+        return 1 if n else 0
+    finally:
+        shutil.rmtree(run, ignore_errors=True)
+
+
 def setup():
     vlib.driver()
     shared("quick")
@@ -1832,6 +1919,8 @@ def main():
         if a.what not in CHECKS:
             print("unknown check", a.what)
             return 2
+        if a.replay:
+            return replay(a.what, a.replay)
         return CHECKS[a.what](a.tier)
     except Inconclusive as e:
         print("INCONCLUSIVE: %s" % e)
